@@ -284,20 +284,54 @@ extern "C" void vp_main() {
   MiniListener lst;
   dev.setListener(&lst);
   dev.m_extraFeatures = vp_nondet_u8();
-  uint8_t il = vp_nondet_u8(), ip = vp_nondet_u8();
-  vp_assume(il <= 18 && ip <= 18);         // whatever earlier frames may have left behind (the code caps both at 17)
+  // inductive step: the invariant (position <= 17, announced length <= 256) is assumed before and asserted after each frame,
+  // so one frame covers INFO streams of any length; the buffer content is arbitrary
+  uint16_t il = vp_nondet_u16(); uint8_t ip = vp_nondet_u8();
+  vp_assume(il <= 256 && ip <= 17);
   dev.m_infoLen = il; dev.m_infoPos = ip;
   for (int i = 0; i < 17; i++) dev.m_infoBuf[i] = vp_nondet_u8();
-  for (int f = 0; f < L; f++) {
+  for (int f = 0; f < NF; f++) {
     uint8_t d = vp_nondet_u8();
     tr->append(static_cast<uint8_t>(0xC0 | (3 << 2) | (d >> 6)));   // <INFO> d
     tr->append(static_cast<uint8_t>(0x80 | (d & 0x3f)));
     symbol_t v = 0; ArbitrationState as = as_none;
     result_t r = dev.recv(0, &v, &as);
     vp_assert("info-frames-deliver-no-bus-symbol", r == RESULT_ERR_TIMEOUT);
-    vp_assert("info-position-stays-inside-the-buffer", dev.m_infoPos <= 17 || dev.m_infoPos == ip);
+    vp_assert("info-position-stays-inside-the-buffer", dev.m_infoPos <= 17);
+    vp_assert("info-length-invariant-is-preserved", dev.m_infoLen <= 256);
   }
   if (dev.m_infoLen == 0 && il > 1) vp_cover("info-transfer-completed-or-reset");
+  dev.m_transport = nullptr;
+}
+#elif defined(H_INFO2)
+// C20: the consumer of a completed INFO transfer on an arbitrary buffer and announced length: every read of
+// notifyInfoRetrieved must stay inside m_infoBuf[17] (built-in CBMC checks are the obligations); the frame-level step
+// (H_INFO) calls it only with m_infoPos >= m_infoLen, i.e. the announced length is what has been stored
+extern "C" void vp_main() {
+  MiniTransport* tr = new MiniTransport();
+  EnhancedDevice dev(tr);
+  MiniListener lst;
+  dev.setListener(&lst);
+  dev.m_extraFeatures = vp_nondet_u8();
+  for (int i = 0; i < 17; i++) dev.m_infoBuf[i] = vp_nondet_u8();
+#ifdef INFO_LEN
+  // one defined response: announced length and id concrete, payload arbitrary
+  uint16_t il = INFO_LEN + 1;
+  dev.m_infoBuf[0] = INFO_ID;
+#else
+  // everything that is not a defined response: arbitrary announced length and id
+  uint16_t il = vp_nondet_u16();
+  vp_assume(il >= 1 && il <= 256);
+  {
+    uint32_t key = (static_cast<uint32_t>(il - 1) << 8) | dev.m_infoBuf[0];
+    vp_assume(key != 0x0200 && key != 0x0500 && key != 0x0800 && key != 0x0901 && key != 0x0802 && key != 0x0302
+              && key != 0x0203 && key != 0x0204 && key != 0x0205 && key != 0x0206 && key != 0x0107);
+  }
+#endif
+  dev.m_infoLen = il; dev.m_infoPos = il <= 17 ? il : 17;
+  dev.notifyInfoRetrieved();
+  vp_cover("response-consumed");
+  vp_observe("pos", dev.m_infoPos);
   dev.m_transport = nullptr;
 }
 #else
